@@ -452,9 +452,12 @@ theorem spec_reads_outline (hc : LexCodec f lx nc ok) {g : Glyph}
 
 /-- **norad's encoder, read by the specification-level reader**: in the tree of what `encode_xml` writes the
     independent reader finds, under the names of the UFO 3 specification, exactly the glyph norad's own parser arrives
-    at on the same bytes (`preG` of `Glif.parse_encode`), for every valid glyph whose note does not trim to nothing -/
+    at on the same bytes (`preG` of `Glif.parse_encode`), for every valid glyph whose note does not trim to nothing and
+    whose contours all have points (`hne`: a contour WITHOUT points is written as `<contour></contour>`, which the
+    independent reader reports as an empty contour while norad's parser drops it — `keepContours` in `preG`) -/
 theorem spec_reads_encTree (hc : LexCodec f lx nc ok) (showLib : Dict → String) {g : Glyph} (hv : ValidGlyph ok g)
-    (hnote : ∀ n, g.note = some n → (trimText n).isEmpty = false) :
+    (hnote : ∀ n, g.note = some n → (trimText n).isEmpty = false)
+    (hne : ∀ c, c ∈ g.contours → c.points ≠ []) :
     specRead lx (encTree f showLib g) = some (descGlyph showLib (preG f nc g)) := by
   have tU : ∀ c : Nat, (leaf sUnicode [(sHex, showCodepoint c)]).tag = "unicode" := fun _ => by simp [tag_leaf]
   have tA : ∀ a : Anchor, (leaf sAnchor (anchorAttrs f a)).tag = "anchor" := fun _ => by simp [tag_leaf]
@@ -474,6 +477,7 @@ theorem spec_reads_encTree (hc : LexCodec f lx nc ok) (showLib : Dict → String
   have tAdv : (leaf sAdvance (advanceAttrs f g.width g.height)).tag = "advance" := by simp [tag_leaf]
   have tImg : ∀ i : Image, (leaf sImage (imageAttrs f i)).tag = "image" := fun _ => by simp [tag_leaf]
   have tOut : (outlineNode f g).tag = "outline" := rfl
+  have hk : keepContours g.contours = g.contours.map pContour := keepContours_of_nonempty hne
   unfold encTree
   cases hi : g.image <;> cases hn : g.note <;>
     by_cases h1 : (isNormal g.width || isNormal g.height) = true <;>
@@ -481,7 +485,8 @@ theorem spec_reads_encTree (hc : LexCodec f lx nc ok) (showLib : Dict → String
     by_cases h3 : (writtenLib g).isEmpty = true <;>
     simp [specRead, allowed_cons, allowed_nil, attrNames_glyph, List.lookup, List.filter_append, List.all_append, fU, fA, fG,
           hasTag, tag_elem, glyphChildTags, atMostOne, mU, mA, mG, hAdv, hOut, hImg, hi, hn, readNote, readLib, tU, tA, tG,
-          tAdv, tImg, tOut, h1, h2, h3, zeroBits, descGlyph, preG, pNote, reindentDict_isEmpty, hnote] <;>
+          tAdv, tImg, tOut, h1, h2, h3, zeroBits, descGlyph, preG, pNote, reindentDict_isEmpty, hnote, hk, List.map_map,
+          Function.comp_def] <;>
     simpa using h2
 
 end
